@@ -189,6 +189,15 @@ Theorem C05_threshold_weight_equiv :
 Proof. exact weight_threshold_equiv. Qed.
 Print Assumptions C05_threshold_weight_equiv.
 
+(* modelling note made checkable: the LEFT JOINs of the neighbours CTE always match (self loop),
+   so rendering them as inner joins loses nothing *)
+Theorem C05_neighbour_left_joins_always_match :
+  forall nodes E v, In v nodes ->
+    filter (fun e => v =? fst e) (edges_with_self_loops nodes E) <> [] /\
+    filter (fun e => v =? snd e) (edges_with_self_loops nodes E) <> [].
+Proof. exact neighbours_left_joins_match. Qed.
+Print Assumptions C05_neighbour_left_joins_always_match.
+
 (* the executable spec used by the correspondence check is the component minimum *)
 Theorem C05_comp_min_exec_is_spec :
   forall nodes E v, In v nodes ->
